@@ -1,11 +1,11 @@
 SPECIFICATION Spec
 CONSTANTS
-  PRICE = {1, 3}
+  PRICE <- PriceNonPos
   QTY = {1, 2}
   FEE = {0, 1}
-  MARK <- MarkSigned
+  MARK <- MarkNonPos
   MaxFills = 3
-INVARIANTS TypeOK AvgPositive SideSize Conservation FeesConserved
+INVARIANTS TypeOK SideSize Conservation FeesConserved
 PROPERTIES ExitIff Ids QmaxAvg FreshUnreal MarkOnlyUnreal
 VIEW View
 CHECK_DEADLOCK FALSE
